@@ -71,8 +71,9 @@ type Sched struct {
 	// channel, select) instead of reaching a point is reported as "blocked";
 	// it stays out of the runnable set until it parks by itself.
 	DetectBlocked bool
-	Steps         int            // scheduling decisions taken so far (history stamps)
-	OnDecision    func(step int) // called by InterleaveBlocking before each decision
+	Steps         int                         // scheduling decisions taken so far (history stamps)
+	OnDecision    func(step int)              // called by InterleaveBlocking before each decision
+	OnRelease     func(t *Task, label string) // called by InterleaveBlocking before the chosen task continues from label
 	Blocks        int
 	Halt          bool // set by OnDecision: stop driving the tasks (the process they belong to died)
 }
@@ -612,6 +613,9 @@ func (s *Sched) InterleaveBlocking(tasks []*Task, choices []int) string {
 			s.Switches++
 		}
 		last = t.ID
+		if s.OnRelease != nil {
+			s.OnRelease(t, t.parkedAt)
+		}
 		switch k := s.Step(t); k {
 		case "parked", "done", "blocked":
 		default:
